@@ -225,6 +225,13 @@ class FakeDatagramTransport(asyncio.DatagramTransport):
 
     def sendto(self, data, addr=None):
         self.sent.append((bytes(data), addr))
+        fail = getattr(self.net, "udp_send_error", None)
+        if fail is not None and fail(addr):
+            # a failed sendto (EPERM from a local firewall, ENETUNREACH ...): asyncio reports it to the protocol and keeps the endpoint open
+            import errno
+            self.net.on_datagram_sent(self, bytes(data), addr)          # (logged as a probe the client tried to send)
+            self.proto.error_received(OSError(errno.EPERM, "Operation not permitted"))
+            return
         self.net.on_datagram_sent(self, bytes(data), addr)
 
     def close(self):
@@ -281,8 +288,8 @@ class Net:
         aggregated error for a multi-address host, connection timed out - all OSError, only some of them ConnectionError."""
         import errno
         import socket
-        self.connect_failures = getattr(self, "connect_failures", 0) + 1
-        k = self.connect_failures % 6
+        Net._connect_failures = getattr(Net, "_connect_failures", 0) + 1          # process-wide: the kinds rotate across runs as well
+        k = Net._connect_failures % 6
         if k == 1:
             return ConnectionRefusedError(errno.ECONNREFUSED, "Connect call failed ('10.0.0.1', 6444)")
         if k == 2:
